@@ -411,6 +411,20 @@ func (in *Interp) installConcStubs() {
 	for _, k := range []string{"Uint32", "Uint64", "Int32", "Int64"} {
 		S["sync/atomic.Load"+k] = ld
 		S["sync/atomic.Store"+k] = st
+		S["sync/atomic.Swap"+k] = func(in *Interp, fn *ssa.Function, a []Value) Value {
+			l := a[0].(PtrV).loc
+			old := l.get()
+			l.set(a[1])
+			return old
+		}
+		S["sync/atomic.CompareAndSwap"+k] = func(in *Interp, fn *ssa.Function, a []Value) Value {
+			l := a[0].(PtrV).loc
+			if in.branch(Eq(l.get().(*Term), a[1].(*Term))) {
+				l.set(a[2])
+				return Bool(true)
+			}
+			return Bool(false)
+		}
 		S["sync/atomic.Add"+k] = func(in *Interp, fn *ssa.Function, a []Value) Value {
 			l := a[0].(PtrV).loc
 			l.set(BinBV("bvadd", l.get().(*Term), a[1].(*Term)))
